@@ -769,10 +769,21 @@ def main_imp(trip_path, sem_path, out_path, seed, nsem, nvcg, nrandom, tid_base=
         for v in sample(rnd, sems, nsem):
             tid += 1
             emit(run_sem(hb, v["prog"], v["s0"], tid, "tlc"))
-        # input selection: half of the sample from the triples the reference generator considers provable
-        good = [v for v in trips if v.get("valid")]
-        rest = [v for v in trips if not v.get("valid")]
-        for v in sample(rnd, good, nvcg // 2) + sample(rnd, rest, nvcg - nvcg // 2):
+        # input selection (no verdict): a third of the sample from the triples whose reference conditions all hold, a third
+        # from those where exactly one fails (most sensitive to a change of a single condition), the rest from the others;
+        # three quarters of each from programs with loops
+        def has_loop(j):
+            return isinstance(j, list) and (j[:1] == ["while"] or any(has_loop(x) for x in j[1:]))
+
+        def pick(pool, n):
+            lo = [v for v in pool if has_loop(v["prog"])]
+            st = [v for v in pool if not has_loop(v["prog"])]
+            a = sample(rnd, lo, n - n // 4)
+            return a + sample(rnd, st, n - len(a))
+        third = nvcg // 3
+        chosen = (pick([v for v in trips if v.get("nfail") == 0], third) + pick([v for v in trips if v.get("nfail") == 1], third)
+                  + pick([v for v in trips if v.get("nfail", 2) >= 2], nvcg - 2 * third))
+        for v in chosen:
             tid += 1
             emit(run_vcg(hb, v["prog"], v["pre"], v["post"], tid, "tlc"))
         g = Gen(rnd, nat=True)
